@@ -64,6 +64,31 @@ var (
 	defSent  int
 )
 
+// structural view of (some) terms, keyed by their printed form, used by the rewrite rules below
+type node struct {
+	op     string // "xor", "extract", "concat", "app:<name>"
+	a, b   Term
+	hi, lo int
+	args   []Term
+}
+
+var nodes = map[string]*node{}
+
+func nodeOf(t Term) *node {
+	if t.C != nil {
+		return nil
+	}
+	return nodes[t.E]
+}
+func reg(t Term, n *node) Term {
+	if t.C == nil {
+		if _, ok := nodes[t.E]; !ok {
+			nodes[t.E] = n
+		}
+	}
+	return t
+}
+
 func sortS(w int) string {
 	if w == 0 {
 		return "Bool"
@@ -189,7 +214,24 @@ func Xor(a, b Term) Term {
 	if a.C == nil && a.E == b.E {
 		return BV(a.W, 0)
 	}
-	return binc("bvxor", a, b, func(x, y *big.Int) *big.Int { return new(big.Int).Xor(x, y) })
+	// (x ^ y) ^ y -> x
+	if n := nodeOf(a); n != nil && n.op == "xor" {
+		if sameT(n.b, b) {
+			return n.a
+		}
+		if sameT(n.a, b) {
+			return n.b
+		}
+	}
+	if n := nodeOf(b); n != nil && n.op == "xor" {
+		if sameT(n.b, a) {
+			return n.a
+		}
+		if sameT(n.a, a) {
+			return n.b
+		}
+	}
+	return reg(binc("bvxor", a, b, func(x, y *big.Int) *big.Int { return new(big.Int).Xor(x, y) }), &node{op: "xor", a: a, b: b})
 }
 func Not(a Term) Term {
 	if a.W == 0 {
@@ -251,13 +293,66 @@ func Extract(hi, lo int, a Term) Term {
 	if a.C != nil {
 		return BVb(hi-lo+1, new(big.Int).Rsh(a.C, uint(lo)))
 	}
-	return mk(hi-lo+1, "((_ extract %d %d) %s)", hi, lo, a.S())
+	if n := nodeOf(a); n != nil {
+		switch n.op {
+		case "extract":
+			return Extract(hi+n.lo, lo+n.lo, n.a)
+		case "concat": // a = n.a ++ n.b
+			if hi < n.b.W {
+				return Extract(hi, lo, n.b)
+			}
+			if lo >= n.b.W {
+				return Extract(hi-n.b.W, lo-n.b.W, n.a)
+			}
+		case "xor":
+			if hi-lo+1 <= 64 {
+				return Xor(Extract(hi, lo, n.a), Extract(hi, lo, n.b))
+			}
+		}
+	}
+	return reg(mk(hi-lo+1, "((_ extract %d %d) %s)", hi, lo, a.S()), &node{op: "extract", a: a, hi: hi, lo: lo})
+}
+
+func sameT(a, b Term) bool {
+	if a.W != b.W {
+		return false
+	}
+	if a.C != nil || b.C != nil {
+		return a.C != nil && b.C != nil && a.C.Cmp(b.C) == 0
+	}
+	return a.E == b.E
 }
 func Concat(a, b Term) Term { // a is high
 	if a.C != nil && b.C != nil {
 		return BVb(a.W+b.W, new(big.Int).Or(new(big.Int).Lsh(a.C, uint(b.W)), b.C))
 	}
-	return mk(a.W+b.W, "(concat %s %s)", a.S(), b.S())
+	// extract(h1,l1,X) ++ extract(l1-1,l2,X) -> extract(h1,l2,X)
+	if na, nb := nodeOf(a), nodeOf(b); na != nil && nb != nil && na.op == "extract" && nb.op == "extract" && sameT(na.a, nb.a) && na.lo == nb.hi+1 {
+		return Extract(na.hi, nb.lo, na.a)
+	}
+	// (p ++ extract(h1,l1,X)) ++ extract(l1-1,l2,X)
+	if na, nb := nodeOf(a), nodeOf(b); na != nil && nb != nil && na.op == "concat" && nb.op == "extract" {
+		if nr := nodeOf(na.b); nr != nil && nr.op == "extract" && sameT(nr.a, nb.a) && nr.lo == nb.hi+1 {
+			return Concat(na.a, Extract(nr.hi, nb.lo, nr.a))
+		}
+	}
+	// (x1^y1) ++ (x2^y2) -> (x1++x2) ^ (y1++y2) when that lets the halves fuse; tried only for byte-wise xor chains
+	if na, nb := nodeOf(a), nodeOf(b); na != nil && nb != nil && na.op == "xor" && nb.op == "xor" {
+		l, r := Concat(na.a, nb.a), Concat(na.b, nb.b)
+		if fused(l) && fused(r) {
+			return Xor(l, r)
+		}
+	}
+	return reg(mk(a.W+b.W, "(concat %s %s)", a.S(), b.S()), &node{op: "concat", a: a, b: b})
+}
+
+// fused reports whether t is not a raw concat node (i.e. the concat collapsed into something simpler)
+func fused(t Term) bool {
+	if t.C != nil {
+		return true
+	}
+	n := nodeOf(t)
+	return n == nil || n.op != "concat"
 }
 func ZExt(a Term, w int) Term {
 	if w == a.W {
@@ -326,7 +421,7 @@ func App(name string, w int, args ...Term) Term {
 	for _, a := range args {
 		s = append(s, a.S())
 	}
-	return mk(w, "(%s %s)", name, strings.Join(s, " "))
+	return reg(mk(w, "(%s %s)", name, strings.Join(s, " ")), &node{op: "app:" + name, args: append([]Term(nil), args...)})
 }
 func ConcatBytes(bs []Term) Term { // bs[0] is most significant
 	t := bs[0]
